@@ -18,6 +18,8 @@ cases = [
     (qlast.DeclareSavepoint(name='plain_1'), 'declare savepoint plain_1'),
     (qlast.SessionResetAliasDecl(alias='my alias'),
      'reset alias `my alias`'),
+    (qlast.SelectQuery(result_alias='my alias', result=qlast.Path(
+        steps=[qlast.ObjectRef(name='Foo')])), 'select `my alias` := Foo'),
     (qlast.ResetSchema(target=qlast.ObjectRef(name='initial')),
      'reset schema to initial'),
     (qlast.ResetSchema(target=qlast.ObjectRef(name='m1abc')),
@@ -25,7 +27,7 @@ cases = [
 ]
 bad = 0
 for node, want in cases:
-    got = gen(node)
+    got = ' '.join(gen(node).split())
     ok = got.lower() == want.lower() and (
         '`' not in want or got[got.index('`'):] == want[want.index('`'):])
     print(('ok  ' if ok else 'BAD ') + f'{type(node).__name__}: {got!r}'
